@@ -116,6 +116,18 @@ CHECKS = {
         design="DESIGN.md 5 (C15)",
         technique="TLA+ spec + TLC exhaustive; spec->code replay of every enumerated state",
     ),
+    "C18": dict(
+        engine="tla-transforms",
+        text="Transforms.tla models rigid transforms between named frames on the exact group Z^3 x| O_h+ and the transform registry as a state "
+        "machine (Register / Query -> direct, inverse, identity, KeyError). TLC checks inverse round trip on poses, involution, labels, composition "
+        "= two steps, associativity, identity with the inverse over sampled pairs/triples and enumerates all registry behaviours to depth 3-4; "
+        "every pair is replayed on real HomogeneousMatrix objects built from q, -q, a 3x3 and a 4x4 matrix (transform, dot, inv, transform(matrix), "
+        "ValueError on mismatched frames) and every registry behaviour on a real TransformDict with six key spellings; random axis/angle rotations "
+        "are validated as traces through residuals.",
+        note="exact on the 24 cube rotations with integer translations; arbitrary rotations by residuals (2e-6 on 1e3 m)",
+        design="DESIGN.md 5 (C18)",
+        technique="TLA+ spec + TLC (laws + registry state machine); spec->code replay; code->spec trace validation",
+    ),
     "C20": dict(
         engine="tla-enums",
         text="Enums.tla defines Parse(enum, member table, spelling) over byte sequences with the documented case folding (FrameID, label policy) and "
